@@ -191,6 +191,20 @@ def _sat_conj0(conj):
     conj = list(conj) + _derived(conj)
     pos, negs = set(), set()
     ineqs = []      # (dict atom->Fraction, Fraction const) meaning sum + const >= 0
+    _base = [-1, None]
+
+    def fm(extra=()):
+        # the base system is normalised once per growth step; queries add a few constraints to it
+        if _base[0] != len(ineqs):
+            _base[0], _base[1] = len(ineqs), _prep(ineqs)
+        if _base[1] is False:
+            return False
+        if not extra:
+            return _fm_cons(_base[1])
+        ex = _prep(extra)
+        if ex is False:
+            return False
+        return _fm_cons(_base[1] | ex)
     diseq = []      # lin terms != 0
     variants = {}   # term -> variant name
     notvariants = {}
@@ -258,7 +272,7 @@ def _sat_conj0(conj):
             ineqs.append(({a: 1}, -l))
         if h is not None:
             ineqs.append(({a: -1}, h))
-    if not _fm_sat(ineqs):
+    if not fm():
         return False
     # token-layout facts of split/splitn (layout.py)
     import layout
@@ -275,7 +289,7 @@ def _sat_conj0(conj):
                 if h is not None:
                     ineqs.append(({a: -1}, h))
         ineqs = ineqs + lf
-        if not _fm_sat(ineqs):
+        if not fm():
             return False
         for cases in alts:
             ok_case = None
@@ -288,7 +302,7 @@ def _sat_conj0(conj):
                             extra.append(({a: 1}, -l))
                         if h is not None:
                             extra.append(({a: -1}, h))
-                if _fm_sat(ineqs + case + extra):
+                if fm(case + extra):
                     ok_case = case
                     break
             if ok_case is None:
@@ -309,7 +323,7 @@ def _sat_conj0(conj):
                 if b[0] == 'call' and b[1] == 'starts_with' and b[2][0] == x and b[2][1][0] == 'bytes' and \
                         (c2 == b[2][1][1] if exact else c2.startswith(b[2][1][1])):
                     c0, m = T.to_lin(T.sub(T.mk_len(x), T.I(len(b[2][1][1]) + 1)))
-                    if not _fm_sat(ineqs + [(dict(m), c0)]):       # len(x) >= len(c1) + 1 impossible
+                    if not fm([(dict(m), c0)]):       # len(x) >= len(c1) + 1 impossible
                         return False
     # the constant c2 starts with x, x is at least as long as c1, c2 starts with c1  ==>  x starts with c1
     for a in negs:
@@ -318,7 +332,7 @@ def _sat_conj0(conj):
             for b in pos:
                 if b[0] == 'call' and b[1] == 'starts_with' and b[2][1] == x and b[2][0][0] == 'bytes' and b[2][0][1].startswith(c1):
                     c0, m = T.to_lin(T.sub(T.I(len(c1) - 1), T.mk_len(x)))
-                    if not _fm_sat(ineqs + [(dict(m), c0)]):       # len(x) <= len(c1) - 1 impossible
+                    if not fm([(dict(m), c0)]):       # len(x) <= len(c1) - 1 impossible
                         return False
     # bytewise view of constant prefixes: x starts with c  <=>  len(x) >= len(c) and x[i] = c[i] for i < len(c)
     if any(a[0] == 'call' and a[1] == 'starts_with' for a in pos | negs):
@@ -340,11 +354,11 @@ def _sat_conj0(conj):
 
         def len_at_least(x, k):        # entailed: len(x) >= k
             c0, m = T.to_lin(T.sub(T.I(k - 1), T.mk_len(x)))
-            return not _fm_sat(ineqs + [(dict(m), c0)])
+            return not fm([(dict(m), c0)])
 
         def len_at_most(x, k):         # entailed: len(x) <= k
             c0, m = T.to_lin(T.sub(T.mk_len(x), T.I(k + 1)))
-            return not _fm_sat(ineqs + [(dict(m), c0)])
+            return not fm([(dict(m), c0)])
         if True:
             for a in pos:
                 if not (byte_eq or byte_ne):
@@ -381,8 +395,8 @@ def _sat_conj0(conj):
             if c0 == 0:
                 return False
             continue
-        up = _fm_sat(ineqs + [(dict(m), c0 - 1)])                       # lin >= 1 possible?
-        dn = _fm_sat(ineqs + [({x: -v for x, v in m.items()}, -c0 - 1)])  # lin <= -1 possible?
+        up = fm([(dict(m), c0 - 1)])                       # lin >= 1 possible?
+        dn = fm([({x: -v for x, v in m.items()}, -c0 - 1)])  # lin <= -1 possible?
         if not up and not dn:
             return False
     # several disequalities on one single-atom form: tighten a finite interval
@@ -443,6 +457,31 @@ def _norm(m, c):
         m = {v: k // g for v, k in m.items()}
         c = c // g          # floor: integer tightening
     return (tuple(sorted(m.items())), c)
+
+
+def _prep(ineqs):
+    """normalised constraint set of ineqs, or False when a constant constraint already fails"""
+    cons = set()
+    for m, c in ineqs:
+        mm = {}
+        for a, k in m.items():
+            if k != 0:
+                mm[_vid(a)] = int(k)
+        if not mm:
+            if c < 0:
+                return False
+            continue
+        cons.add(_norm(mm, int(c)))
+    return cons
+
+
+def _fm_cons(cons):
+    key = frozenset(cons)
+    r = _FM_CACHE.get(key)
+    if r is None:
+        r = _fm_core(cons)
+        _FM_CACHE[key] = r
+    return r
 
 
 def _fm_sat(ineqs):
